@@ -415,6 +415,10 @@ func (fd *Client) Query(ctx context.Context, input *dynamodb.QueryInput, opt ...
 		return nil, &smithy.GenericAPIError{Code: "ValidationException", Message: "The table does not have the specified index: " + indexName}
 	}
 
+	if err := table.CheckStartKey(indexName, mapDynamoToTypesMapItem(input.ExclusiveStartKey)); err != nil {
+		return nil, &smithy.GenericAPIError{Code: "ValidationException", Message: err.Error()}
+	}
+
 	if input.ScanIndexForward == nil {
 		input.ScanIndexForward = aws.Bool(true)
 	}
@@ -454,6 +458,10 @@ func (fd *Client) Scan(ctx context.Context, input *dynamodb.ScanInput, opt ...fu
 	indexName := aws.ToString(input.IndexName)
 	if indexName != "" && !table.HasIndex(indexName) {
 		return nil, &smithy.GenericAPIError{Code: "ValidationException", Message: "The table does not have the specified index: " + indexName}
+	}
+
+	if err := table.CheckStartKey(indexName, mapDynamoToTypesMapItem(input.ExclusiveStartKey)); err != nil {
+		return nil, &smithy.GenericAPIError{Code: "ValidationException", Message: err.Error()}
 	}
 
 	items, lastKey := table.SearchData(core.QueryInput{
